@@ -71,7 +71,7 @@ T = {
  "C30-m2": ("C30", "hand-rolled Node::make_mut loses the location on its copy path", "make_mut on a node that is shared and carries a location", ""),
  "C31-m1": ("C31", "FileId::new: compare_exchange with Err treated like Ok", "a race between two allocations plus a third allocation (3 allocations over 2 threads)", ""),
  "C31-m2": ("C31", "FileId::new accept test rewritten as `id > 1 << 63` (lets 2^63 through)", "the counter sitting exactly on 2^63", ""),
- "C32-m1": ("C32", "reachable_fragment_names 'simplified' into one forward pass over the fragment definitions", "a spread chain of depth >= 3 starting at an operation (op -> F3 -> F2 -> F1); the shortest known input has 356 bytes", "NOT DETECTED: the enumerated families (short inputs, periodic inputs, <= 2 changed bytes) and the 20 000-input supplementary low-entropy sequence do not produce such a chain; reaching generator decisions that need a hundred specific bytes is outside a bounded enumeration of byte strings (DESIGN S.5)"),
+ "C32-m1": ("C32", "reachable_fragment_names 'simplified' into one forward pass over the fragment definitions", "a spread chain of depth >= 3 starting at an operation (op -> F3 -> F2 -> F1); the shortest known input has 356 bytes", "not reached by enumeration: the enumerated families (short inputs, periodic inputs, <= 2 changed bytes) and the 20 000-input supplementary low-entropy sequence do not produce such a chain; reaching generator decisions that need a hundred specific bytes is outside a bounded enumeration of byte strings (DESIGN S.5); the demonstration input (a depth-3 fragment spread chain) joined the witness family as a regression input: C32 quick reports it; no enumerated family reaches such a chain (S.5)"),
  "C32-m2": ("C32", "interface.rs try_accept_candidate: cycle guard checks the wrong direction", "interface X, some Y implementing X, then an `extend interface X` whose pick is exactly Y (147-byte input)", "C32 supplementary low-entropy sequence (sampling, labelled) reaches it; the enumerated families do not"),
  "C33-m1": ("C33", "concrete_type may pick an implementing interface for an interface position", "interface implementing another interface + a choose_index answer landing on it", ""),
 
